@@ -80,7 +80,41 @@ fn unhex(s: &str) -> Vec<u8> {
     (0..s.len() / 2).map(|i| u8::from_str_radix(&s[2 * i..2 * i + 2], 16).expect("hex")).collect()
 }
 
+/// `c18 child 2|3 ...`: TWO console appenders in one process, one per stream, built in the
+/// order stdout, stderr (2) or stderr, stdout (3); the record is appended through both in
+/// that order.  Each stream must carry what a process with only that appender writes.
+fn child_both(args: &[String]) -> i32 {
+    let order = if args[0] == "2" { [Target::Stdout, Target::Stderr] } else { [Target::Stderr, Target::Stdout] };
+    let tty_only = args[1] != "0";
+    let pattern = String::from_utf8(unhex(&args[2])).expect("utf8 pattern");
+    let lvl = level(args[3].parse::<u128>().expect("level"));
+    let msg = String::from_utf8(unhex(&args[4])).expect("utf8 message");
+    let apps: Vec<ConsoleAppender> = order
+        .into_iter()
+        .map(|t| {
+            ConsoleAppender::builder()
+                .target(t)
+                .tty_only(tty_only)
+                .encoder(Box::new(PatternEncoder::new(&pattern)))
+                .build()
+        })
+        .collect();
+    let mut code = 0;
+    for app in &apps {
+        if app
+            .append(&log::Record::builder().level(lvl).target("tgt").args(format_args!("{}", msg)).build())
+            .is_err()
+        {
+            code = 3;
+        }
+    }
+    unsafe { libc::_exit(code) }
+}
+
 fn child(args: &[String]) -> i32 {
+    if args[0] == "2" || args[0] == "3" {
+        return child_both(args);
+    }
     let target = if args[0] == "0" { Target::Stdout } else { Target::Stderr };
     let tty_only = args[1] != "0";
     let pattern = String::from_utf8(unhex(&args[2])).expect("utf8 pattern");
